@@ -422,11 +422,14 @@ def rule_plumbing(ctx):
     plumbing.rule_sender_hooks(ctx, 'C17.b')
     # reconnect cancels the old receiver: that exit, like EOF and transport error, must reach the close sequence that
     # fails what was pending on the old connection (shared C11.a)
-    from .c11 import rule_a as c11a
+    from .c11 import rule_a as c11a, rule_g as c11g
     c11a(ctx)
+    # ... and that close sequence fails what was queued but never written - both queues, the lease hold queue
+    # included (a fire-and-forget waiting for a lease has no other completion signal) (shared C11.g)
+    c11g(ctx)
     # keepalives restart with every connection (shared C15.c)
     from .c15 import rule_c as c15c
     c15c(ctx)
 
 
-RULES = [('C17.a', rule_a), ('C17.b', rule_b), ('C17.c', rule_c), ('C17.d', rule_d), ('C17.e', rule_e), ('C17.f', rule_f), ('C17.b+C11.a', rule_plumbing)]
+RULES = [('C17.a', rule_a), ('C17.b', rule_b), ('C17.c', rule_c), ('C17.d', rule_d), ('C17.e', rule_e), ('C17.f', rule_f), ('C17.b+C11.a+C11.g', rule_plumbing)]
